@@ -551,6 +551,24 @@ func ValidTopicFilter(mustUTF8 bool, p []byte) bool {
 	return true
 }
 
+// readRemain reads the n bytes that remain of a packet after its fixed header.
+// The buffer grows with the bytes that actually arrive: a few bytes declaring a remaining length
+// of up to 256 MB must not make the decoder allocate that much before anything has been received.
+func readRemain(r io.Reader, n int) ([]byte, error) {
+	const prealloc = 4 * 1024
+	if n <= prealloc {
+		b := make([]byte, n)
+		_, err := io.ReadFull(r, b)
+		return b, err
+	}
+	buf := bytes.NewBuffer(make([]byte, 0, prealloc))
+	_, err := io.CopyN(buf, r, int64(n))
+	if err == io.EOF {
+		err = io.ErrUnexpectedEOF
+	}
+	return buf.Bytes(), err
+}
+
 // TopicMatch returns whether the topic and topic filter is matched.
 func TopicMatch(topic []byte, topicFilter []byte) bool {
 	var spos int
